@@ -246,7 +246,10 @@ func main() {
 	skipped := map[int]string{}
 	var body strings.Builder
 	for k, f := range fns {
-		if f.Pkg != p { // a callee in another package (e.g. encoding/binary): exercised through its callers
+		// an exported function of another package with an interface parameter bound to a type of this
+		// package ("container/heap:Fix@timerHeap") can be called from here
+		boundCall := f.Pkg != p && f.Bind != "" && f.Prefix == 0 && f.Decl.Recv == nil && ast.IsExported(f.Decl.Name.Name) && p.Types.Scope().Lookup(f.Bind) != nil
+		if f.Pkg != p && !boundCall { // a callee in another package (e.g. encoding/binary): exercised through its callers
 			skipped[k] = "other package"
 			continue
 		}
@@ -266,7 +269,7 @@ func main() {
 			skipped[k] = "oracle"
 			continue
 		}
-		if f.Bind != "" {
+		if f.Bind != "" && !boundCall {
 			skipped[k] = "other package"
 			continue
 		}
@@ -285,6 +288,28 @@ func main() {
 		var bad error
 		for i, pv := range f.Params {
 			v := fmt.Sprintf("p%d", i)
+			if it, isIface := pv.Type().Underlying().(*types.Interface); isIface && boundCall && it.NumMethods() > 0 {
+				bt := p.Types.Scope().Lookup(f.Bind).Type() // the parameter stands for a value of this type
+				g.pf("\tvar %s %s\n", v, g.ty(bt))
+				g.buildStructSlice(v, bt)
+				for _, in := range f.Inputs {
+					if in.Param == i {
+						if in.LenOnly {
+							reads[in] = "len(" + v + ")"
+						} else if len(in.Path) == 2 && in.Path[0] == "[]" {
+							reads[in] = fmt.Sprintf("gfField(%s, %q)", v, in.Path[1])
+						} else {
+							bad = fmt.Errorf("cannot build parameter %s", pv.Name())
+						}
+					}
+				}
+				if types.Implements(bt, it) {
+					args = append(args, v)
+				} else {
+					args = append(args, "&"+v)
+				}
+				continue
+			}
 			el, isPtr := deref(pv.Type())
 			_, isStruct := el.Underlying().(*types.Struct)
 			switch {
@@ -359,6 +384,10 @@ func main() {
 			outs = append(outs, reads[in])
 		}
 		call := f.Decl.Name.Name + "(" + strings.Join(args, ", ") + ")"
+		if boundCall {
+			g.imports[f.Pkg.Types.Path()] = f.Pkg.Types.Name()
+			call = f.Pkg.Types.Name() + "." + call
+		}
 		if f.Decl.Recv != nil {
 			recv := args[0]
 			if strings.HasPrefix(recv, "*") {
